@@ -484,7 +484,14 @@ def c_case(case, obs):
 
 # ------------------------------------------------------------------ the run
 def run(rep, tier, rng):
-    H.setup_env("c15")
+    root = H.setup_env("c15")
+    try:
+        _run(rep, tier, rng)
+    finally:
+        _cleanup(root)
+
+
+def _run(rep, tier, rng):
     thorough = tier == "thorough"
     cases = []
     for p in sorted(glob.glob(os.path.join(C.VERIF, "corpus", PROP, "*.json"))):
@@ -520,6 +527,11 @@ def run(rep, tier, rng):
     bad = C.coq_bad_indices(PROP, "cache", ["Model.ProfileCache", "Model.ProfileCacheCases"], "ccase_ok", "ccase", items, shard=120 if thorough else 60)
     for i in bad[:50]:
         rep.disagreements.append({"case": kept[i][0], "implementation": {k: v for k, v in kept[i][1].items() if k in ("steps", "results", "asked", "tmps")}})
+
+
+def _cleanup(root):
+    shutil.rmtree(root, ignore_errors=True)
+    shutil.rmtree(os.path.join(C.BUILD, "scratch", "c15"), ignore_errors=True) if not glob.glob(os.path.join(C.BUILD, "scratch", "c15", "*")) else None
 
 
 def replay(obj):
